@@ -35,7 +35,12 @@ def torchrl_env(spec, cfg):
 
 def play(case, ctx, keep_states=False, cap_factor=1):
     spec = SPECS[case["env"]]
-    env = ctx.guard(spec.env, case["cfg"], what=f"build_env|{case['env']}")
+    env_cfg = case["cfg"]
+    if case.get("env_shape"):
+        # the env object is configured for another size than the instances it is given (see vf.envs.ENV_SHAPE_FREE)
+        env_cfg = dict(case["cfg"], **case["env_shape"])
+        ctx.event("env_built_for_other_size")
+    env = ctx.guard(spec.env, env_cfg, what=f"build_env|{case['env']}")
     inst = ctx.guard(spec.instance, case, what=f"instance|{case['env']}")
     B = inst.batch_size[0]
     if case.get("seed", 0) % 3 == 0 and case.get("src") == "gen":
@@ -54,7 +59,7 @@ def play(case, ctx, keep_states=False, cap_factor=1):
     if stepping != "default" and case["env"] not in NO_TORCHRL:
         # TorchRL stepping mode (env.step(td) writes td["next"] and leaves the state in td untouched), optionally with
         # a second mask-admitted action evaluated from the same state and discarded before every committed step
-        env = ctx.guard(torchrl_env, spec, case["cfg"], what=f"build_env|{case['env']}")
+        env = ctx.guard(torchrl_env, spec, env_cfg, what=f"build_env|{case['env']}")
         ctx.event(f"stepping:{stepping}")
         ep = ctx.guard(run_episode_torchrl, env, inst, modes, streams, cap, keep_states, stepping == "torchrl_probe",
                        what=f"episode_{stepping}|{case['env']}")
